@@ -5,3 +5,7 @@ package verifrt
 // Bodies are never executed: the engine intercepts these by name.
 func Observe(label string, v interface{}) {}
 func SameValue(a, b interface{}) bool     { return false }
+
+// ConvertAssign runs database/sql's own (unexported) convertAssign under the
+// engine; it exists only in the symbolic build.
+func ConvertAssign(dest, src interface{}) error { return nil }
